@@ -91,6 +91,13 @@ func judgeHeader(c *Ctx, entry string, h []byte, got, err string, what string) b
 			c.Fail("mismatch", entry, "unknown-without-notfound", fmt.Sprintf("type unknown but the error is %q, not 'not found'; %s", err, what))
 			return false
 		}
+		if len(acc) > 0 && !(h[4] == 'f' && (h[0] != 0 || h[1] != 0)) {
+			// (a ftyp box of 64 KiB or more is no standard header: the table, written for the
+			// "only if" direction, does not look at the size field)
+			// "all 24-byte headers h carrying F's signature: type(h++s)==F"
+			c.Fail("mismatch", entry, "if:"+acc[0], fmt.Sprintf("header carries the signature of %v but is classified as unknown; %s", acc, what))
+			return false
+		}
 		return true
 	}
 	if err != "<nil>" {
